@@ -496,7 +496,54 @@ def host_main(workload, path):
     if time.timezone != west:
         raise HarnessError("host zone not in force: %r != %r" % (
             time.timezone, west))
+    arm_alarm()
     print("HOST " + json.dumps(workload.execute(trace), default=str))
+    return 0
+
+
+def run_lazy_import(prop, trace):
+    """workload.execute(trace) in a SPAWNED interpreter that first imports
+    only the data model, selects trace['pre_import_mode'] and computes with
+    it -- and imports the rest of the library (operators, command line)
+    after that, the way an application with lazy imports does."""
+    import subprocess
+    import tempfile
+    fd, path = tempfile.mkstemp(prefix="verif-lazy-", suffix=".json")
+    try:
+        with os.fdopen(fd, "w") as out:
+            json.dump(trace, out)
+        proc = subprocess.run(
+            [sys.executable, os.path.join(VERIF_DIR, "check.py"), "_lazy",
+             prop, path], capture_output=True, text=True, timeout=900,
+            env=dict(os.environ, VERIF_REPO=REPO, PYTHONHASHSEED="0"))
+    finally:
+        os.remove(path)
+    line = [ln for ln in proc.stdout.splitlines() if ln.startswith("LAZY ")]
+    if not line:
+        raise HarnessError(
+            "spawned lazy-import run failed: " + proc.stderr[-400:])
+    return json.loads(line[0][5:])
+
+
+def lazy_main(workload, path):
+    """Entry of the spawned interpreter (check.py _lazy <PROP> <file>)."""
+    with open(path) as inp:
+        trace = json.load(inp)
+    sys.dont_write_bytecode = True
+    if sys.path[0] != REPO:
+        sys.path.insert(0, REPO)
+    if any(name.startswith("metomi.isodatetime") for name in sys.modules):
+        raise HarnessError("library already imported")
+    import metomi.isodatetime.data as data
+    for later in ("datetimeoper", "main", "parsers", "dumpers"):
+        if "metomi.isodatetime." + later in sys.modules and later in (
+                "datetimeoper", "main"):
+            raise HarnessError("%s imported by the data model" % later)
+    data.Calendar.default().set_mode(trace["pre_import_mode"])
+    str(data.TimePoint(year=2001, month_of_year=2, day_of_month=28) +
+        data.Duration(days=2))
+    arm_alarm()
+    print("LAZY " + json.dumps(workload.execute(trace), default=str))
     return 0
 
 
